@@ -68,6 +68,22 @@ theorem splitBlock_fuel (fuel fuel' maxFrame kind flags sid : Nat) (pre hpack : 
         · simp only [List.length_drop]; omega
       · rfl
 
+/-- the chain carries the whole block (plus heads and prefix) -/
+theorem splitBlock_length_ge (fuel maxFrame kind flags sid : Nat) (pre hpack : Bytes)
+    (hpre : pre.length < maxFrame) (hf : hpack.length < fuel) :
+    hpack.length ≤ (splitBlock fuel maxFrame kind flags sid pre hpack).length := by
+  induction fuel generalizing kind flags pre hpack with
+  | zero => omega
+  | succ n ih =>
+    simp only [splitBlock]
+    split
+    · rename_i hgt
+      have := ih 9 4 [] (hpack.drop (maxFrame - pre.length)) (by simpa using by omega)
+        (by simp only [List.length_drop]; omega)
+      simp only [List.length_append, List.length_take, List.length_drop] at this ⊢
+      omega
+    · simp only [List.length_append]; omega
+
 /-- the general statement, for an arbitrary first frame: the first frame is whatever the RFC makes of
     `(kind, flags (minus END_HEADERS if more follows), sid, pre ++ frag0)` -/
 theorem frames_splitBlock (fuel : Nat) : ∀ (maxFrame kind flags sid : Nat) (pre hpack : Bytes) (F maxSize : Nat),
